@@ -9,6 +9,7 @@ def run(R):
     common.load_ir(R)
     names = common.names_for(R, 'C17')
     obs = check.verify_functions(R, names)
+    obs += common.avr_pass(R, names)
     obs += common.lemma_obligations(R, 'C17')
     check.discharge(R, obs, timeout=120)
 
